@@ -133,7 +133,11 @@ def spread_cases(rng, tier):
               (None, 10 ** 16, 1000000, 989999, 9999, 6, 18), (0, 10 ** 16, 5, 5, 5, 6, 6),
               (None, 10 ** 16, 5, 0, 0, 6, 6), (D, None, 5, 5, 5, 6, 6), (None, None, 5, 5, 5, 0, 18),
               (D, 10 ** 16, W128 - 1, W128 - 1, 0, 18, 0), (D, 10 ** 16, 5, 5, 5, 30, 0), (D, 10 ** 16, 5, 5, 5, 0, 20),
-              (D, 10 ** 16, 5, 5, 5, 19, 0), (D, 10 ** 16, 5, 5, 5, 0, 19), (D, 10 ** 16, 5, 5, 5, 255, 0)]
+              (D, 10 ** 16, 5, 5, 5, 19, 0), (D, 10 ** 16, 5, 5, 5, 0, 19), (D, 10 ** 16, 5, 5, 5, 255, 0),
+              # belief prices ABOVE the normalised offer (offer/p truncates to zero) with a non-zero return and a pool spread far
+              # beyond the limit: the guard has nothing to object to (C10-agent22 was caught only by some seeds)
+              (2000 * D, D // 10, 1000, 499, 501, 6, 6), (2000 * D, 0, 1000, 1, 999, 6, 6), (5 * D, D // 100, 3, 1, 2, 6, 6),
+              (10 ** 6 * D, D // 10, 1000, 499, 501, 8, 6), (10 ** 9 * D, D // 10, 1000, 499, 501, 6, 12), (2 * D, 10 ** 15, 1, 1, 5, 0, 0)]
     for v in corpus:
         cases.append(spread_case(*v, "corpus"))
     decs = [(a, b) for a in range(0, 19) for b in range(0, 19)]
